@@ -293,6 +293,183 @@ def scaled_directed(rng):
     return ev(rng, 2, padd(pmul(pvar(0, 2), pvar(1, 2)), pconst(b, 2), -1), [tok, "z:%d" % a])
 
 
+def _dy_interval(fr, rng, wide=False):
+    """an open dyadic interval (lo, hi) around the non-dyadic-or-dyadic rational fr that does not have fr as an end
+    point; returned as two d-style strings a/n"""
+    k = rng.choice([0, 1, 2, 3, 5] if not wide else [0, 1])
+    sc = 2 ** k
+    import math
+    lo = math.floor(fr * sc)
+    hi = lo + 1
+    if Fraction(lo, sc) == fr:           # fr is a dyadic grid point: shift the window by half a cell
+        lo, hi, sc, k = 2 * lo - 1, 2 * lo + 1, 2 * sc, k + 1
+    def dy(a, n):
+        while n > 0 and a % 2 == 0:
+            a //= 2
+            n -= 1
+        return "%d/%d" % (a, n)
+    return dy(lo, k), dy(hi, k)
+
+
+def rational_as_algebraic(rng):
+    """(i) rational values (non-integer, negative, dyadic and non-dyadic) HELD AS algebraic numbers: a linear or a
+    reducible defining polynomial with an explicit isolating interval (not collapsed to a point), alone and mixed with
+    irrational values; polynomials that vanish there, products, random ones."""
+    fr = rng.choice([Fraction(1, 3), Fraction(-2, 3), Fraction(5, 8), Fraction(-7, 5), Fraction(22, 7), Fraction(3, 2),
+                     Fraction(-1, 6), Fraction(7, 12), Fraction(-13, 4), Fraction(rng.randint(-20, 20), rng.choice([3, 5, 6, 7, 9, 10, 12]))])
+    if fr.denominator == 1:
+        fr = fr + Fraction(1, 3)
+    d, nu = fr.denominator, fr.numerator
+    kind = rng.random()
+    if kind < 0.55:
+        coeffs = [-nu, d]                                         # d*x - nu
+    elif kind < 0.8:
+        # (d x - nu)(x^2 - c): the other roots are irrational
+        c = rng.choice([2, 3, 5, 7])
+        coeffs = [nu * c, -d * c, -nu, d]
+    else:
+        # (d x - nu)(e x - m): another rational root well away from fr
+        e, mm = rng.choice([(2, 2 * fr.numerator // fr.denominator * 2 + 7), (3, 3 * (fr.numerator // fr.denominator) - 10)])
+        coeffs = [nu * mm, -(d * mm + nu * e), d * e]
+    lo, hi = _dy_interval(fr, rng)
+    if kind >= 0.55:
+        # make sure no other root is inside: tighten the window
+        lo, hi = _dy_interval(fr, rng) if False else (lo, hi)
+        sc = 64
+        import math
+        l = math.floor(fr * sc)
+        if Fraction(l, sc) == fr:
+            l, sc = 2 * l - 1, 2 * sc
+            h = l + 2
+        else:
+            h = l + 1
+        def dy(a, n):
+            while n > 0 and a % 2 == 0:
+                a //= 2
+                n -= 1
+            return "%d/%d" % (a, n)
+        n = sc.bit_length() - 1
+        lo, hi = dy(l, n), dy(h, n)
+    g = 0
+    for c_ in coeffs:
+        g = gcd(g, abs(c_))
+    coeffs = [c_ // g for c_ in coeffs]
+    if coeffs[-1] < 0:
+        coeffs = [-c_ for c_ in coeffs]
+    tok = "a:%s:%s:%s" % (",".join(map(str, coeffs)), lo, hi)
+    if rng.random() < 0.15 and kind < 0.55:
+        tok = "r:%s:0" % ",".join(map(str, coeffs))               # what root isolation makes of a linear polynomial
+    n = rng.choice([1, 2, 2, 3])
+    toks = [tok]
+    for i in range(1, n):
+        k2 = rng.random()
+        if k2 < 0.5:
+            toks.append(alg_value(rng, cubic_ok=False))
+        elif k2 < 0.75:
+            toks.append(rat_value(rng))
+        else:
+            fr2 = rng.choice([Fraction(1, 3), Fraction(-2, 3), Fraction(5, 8), Fraction(-7, 5)])
+            l2, h2 = _dy_interval(fr2, rng)
+            toks.append("a:%d,%d:%s:%s" % (-fr2.numerator, fr2.denominator, l2, h2))
+    lin = padd(pmul(pconst(d, n), pvar(0, n)), pconst(nu, n), -1)      # d*x0 - nu  (zero at the value)
+    k3 = rng.random()
+    if k3 < 0.25:
+        p = lin
+    elif k3 < 0.45:
+        p = pmul(lin, rand_poly(rng, n, 2, 1, 3) or pconst(1, n))
+    elif k3 < 0.6:
+        p = pmul(pvar(0, n), pvar(n - 1, n)) if n > 1 else pvar(0, n, rng.choice([1, 2, 3]))
+    elif k3 < 0.7:
+        p = padd(pmul(lin, pconst(2 ** rng.choice([5, 21, 23]), n)), pconst(rng.choice([1, -1]), n))
+    else:
+        p = rand_poly(rng, n, rng.randint(1, 4), 2)
+    # put the rational-as-algebraic variable at a random position
+    if n > 1 and rng.random() < 0.5:
+        j = rng.randrange(1, n)
+        toks[0], toks[j] = toks[j], toks[0]
+        def sw(e):
+            e = list(e)
+            e[0], e[j] = e[j], e[0]
+            return tuple(e)
+        p = {sw(e): c_ for e, c_ in p.items()}
+    return ev(rng, n, p, toks)
+
+
+REDUCIBLE = [   # (coefficients, factors as (poly dict builder), sorted real roots as (sign, radicand) or rationals)
+    # x^4 - 5x^2 + 6 = (x^2-2)(x^2-3)
+    ("6,0,-5,0,1", [(-1, 3), (-1, 2), (1, 2), (1, 3)]),
+    # x^4 - 7x^2 + 10 = (x^2-2)(x^2-5)
+    ("10,0,-7,0,1", [(-1, 5), (-1, 2), (1, 2), (1, 5)]),
+    # x^4 - 8x^2 + 15 = (x^2-3)(x^2-5)
+    ("15,0,-8,0,1", [(-1, 5), (-1, 3), (1, 3), (1, 5)]),
+    # (x^2-2)(3x-1) = 3x^3 - x^2 - 6x + 2
+    ("2,-6,-1,3", [(-1, 2), Fraction(1, 3), (1, 2)]),
+    # (x^2-3)(2x+3) = 2x^3 + 3x^2 - 6x - 9
+    ("-9,-6,3,2", [(-1, 3), Fraction(-3, 2), (1, 3)]),
+]
+
+
+def reducible_defining(rng):
+    """(ii) the value is a root of a REDUCIBLE defining polynomial (kept as given by root isolation / a: tokens);
+    p shares the OTHER factor and is tiny but non-zero at the value: p = other(x) * (D x - N) with N/D a dyadic or
+    continued-fraction approximation of the value; also true zeros (own factor) - sign AND value are checked."""
+    import math
+    cs, roots = rng.choice(REDUCIBLE)
+    k = rng.randrange(len(roots))
+    r = roots[k]
+    n = 1
+    x = pvar(0, n)
+    def quad(c):
+        return padd(pmul(x, x), pconst(c, n), -1)
+    def linf(fr):
+        return padd(pmul(pconst(fr.denominator, n), x), pconst(fr.numerator, n), -1)
+    own = linf(r) if isinstance(r, Fraction) else quad(r[1])
+    others = []
+    seen = set()
+    for rr in roots:
+        key = rr if isinstance(rr, Fraction) else rr[1]
+        if key in seen or (rr == r) or (not isinstance(rr, Fraction) and not isinstance(r, Fraction) and rr[1] == r[1]):
+            continue
+        seen.add(key)
+        others.append(linf(rr) if isinstance(rr, Fraction) else quad(rr[1]))
+    other = rng.choice(others)
+    # rational approximation N/D of the value
+    bits = rng.choice([8, 16, 20, 21, 22, 23, 30, 40])
+    if isinstance(r, Fraction):
+        approx = r + Fraction(rng.choice([1, -1]), 2 ** bits)
+    else:
+        approx = Fraction(r[0] * math.isqrt(r[1] * 4 ** bits), 2 ** bits) + Fraction(rng.choice([0, 0, 1, -1, 3]), 2 ** bits)
+    near = linf(approx)
+    tok = "r:%s:%d" % (cs, k)
+    if rng.random() < 0.25 and not isinstance(r, Fraction):
+        # the same number with an explicit (unaligned) isolating interval around it
+        v = r[0] * math.isqrt(r[1] * 4 ** 6)
+        def dyn(a, nn):
+            while nn > 0 and a % 2 == 0:
+                a //= 2
+                nn -= 1
+            return "%d/%d" % (a, nn)
+        tok = "a:%s:%s:%s" % (cs, dyn(v - 1, 6), dyn(v + 2, 6))
+    kind = rng.random()
+    if kind < 0.5:
+        p = pmul(other, near)                                   # shares the OTHER factor, tiny non-zero
+    elif kind < 0.65:
+        p = pmul(pmul(other, near), rng.choice([pconst(1, n), pconst(-3, n), x]))
+    elif kind < 0.8:
+        p = pmul(own, rng.choice([pconst(1, n), near, other]))  # true zero
+    elif kind < 0.9:
+        p = near                                                # tiny, no common factor
+    else:
+        p = other
+    if rng.random() < 0.2:
+        # the same in two variables: the scale as a rational value of x1
+        n2 = 2
+        p = {e + (0,): c for e, c in p.items()}
+        p = pmul(p, {(0, 1): 1})
+        return ev(rng, n2, p, [tok, rat_value(rng)])
+    return ev(rng, n, p, [tok])
+
+
 def mixed(rng):
     n = rng.choice([1, 2, 2, 3, 3])
     nalg = rng.choice([0, 1, 1, 2, 2, 3]) if n == 3 else rng.randint(0, n)
@@ -431,7 +608,7 @@ def sc_cases():
 
 CLASSES = [("sqrt", sqrt_family, 14), ("tiny", tiny_linear, 6), ("scaled", scaled_eliminant, 9), ("scaledd", scaled_directed, 4), ("mixed", mixed, 30),
            ("lckill", lc_killer, 10), ("cbrt", cube_roots, 4), ("secret", secretly_rational, 8), ("er", er_case, 12),
-           ("rlb", rlb_case, 4), ("va", va_case, 10)]
+           ("rlb", rlb_case, 4), ("va", va_case, 10), ("ratalg", rational_as_algebraic, 10), ("reducible", reducible_defining, 10)]
 
 
 def generate(rng, tier):
